@@ -13,9 +13,12 @@ Layout of <rundir>:
 ack.log events (all written by this module, never by the library):
     {"e":"S","session":n}                session n starts (before any database is opened)
     {"e":"O","db":name}                  open of database ``name`` returned
-    {"e":"B","t":table,"row":[...]}      an insert_* call of the database object is about to be made; row is the
+    {"e":"B","i":n,"t":table,"row":[...]}  the n-th insert_* call of this session is about to be made; row is the
                                          complete record as lowercase hex (null for NULL) in column order
-    {"e":"A"}                            that insert_* call has returned
+    {"e":"A","i":[n,...]}                these records are acknowledged: the insert_* call has returned and the
+                                         application is not inside a ``with database:`` block of that database - or
+                                         the outermost such block has just been left normally (a record inserted in
+                                         a block that ends with IgnoreCommits / an exception is never acknowledged)
     {"e":"C","db":name}                  close() returned
     {"e":"E"}                            session finished
 
@@ -140,7 +143,16 @@ class PyPoints:
         return counted
 
 
-def install_ack_wrappers(log: AckLog) -> None:
+class Batching:
+    """Application-side bookkeeping of ``with database:`` blocks (the library's own counter is not consulted)."""
+
+    def __init__(self) -> None:
+        self.count = 0
+        self.depth = {"identity": 0, "wallet": 0}
+        self.deferred: dict[str, list[int]] = {"identity": [], "wallet": []}
+
+
+def install_ack_wrappers(log: AckLog) -> Batching:
     """Log B before and A after every insert_* call of the two database classes (record = the complete row)."""
     from ipv8.attestation.identity.database import IdentityDatabase
     from ipv8.attestation.wallet.database import AttestationsDB
@@ -160,23 +172,30 @@ def install_ack_wrappers(log: AckLog) -> None:
     def rows_blob(self, attestation, attestation_hash, secret_key, id_format):  # noqa: ANN001, ANN202
         return "attestations", [attestation_hash, attestation.blob, secret_key.raw, id_format.encode()]
 
-    def wrap(cls, name, describe):  # noqa: ANN001, ANN202
+    def wrap(cls, dbname, name, describe):  # noqa: ANN001, ANN202
         orig = getattr(cls, name)
 
         def acked(self, *a, **kw):  # noqa: ANN001, ANN002, ANN003, ANN202
             if self._file_path.startswith(":"):
                 return orig(self, *a, **kw)     # the foreign party's in-memory database is not under test
             table, row = describe(self, *a, **kw)
-            log.ev(e="B", t=table, row=[hx(c) for c in row])
+            batch.count += 1
+            i = batch.count
+            log.ev(e="B", i=i, t=table, row=[hx(c) for c in row])
             r = orig(self, *a, **kw)
-            log.ev(e="A")
+            if batch.depth[dbname]:
+                batch.deferred[dbname].append(i)    # inside ``with database:``: acknowledged when the block is left
+            else:
+                log.ev(e="A", i=[i])
             return r
         setattr(cls, name, acked)
 
-    wrap(IdentityDatabase, "insert_token", rows_token)
-    wrap(IdentityDatabase, "insert_metadata", rows_metadata)
-    wrap(IdentityDatabase, "insert_attestation", rows_attestation)
-    wrap(AttestationsDB, "insert_attestation", rows_blob)
+    batch = Batching()
+    wrap(IdentityDatabase, "identity", "insert_token", rows_token)
+    wrap(IdentityDatabase, "identity", "insert_metadata", rows_metadata)
+    wrap(IdentityDatabase, "identity", "insert_attestation", rows_attestation)
+    wrap(AttestationsDB, "wallet", "insert_attestation", rows_blob)
+    return batch
 
 
 def run_session(rundir: str, spec: dict) -> dict:
@@ -185,7 +204,7 @@ def run_session(rundir: str, spec: dict) -> dict:
     log = AckLog(os.path.join(rundir, "ack.log"))
     points = PyPoints()
     points.install()
-    install_ack_wrappers(log)
+    batch = install_ack_wrappers(log)
 
     from ipv8.attestation.identity.manager import IdentityManager
     from ipv8.attestation.wallet.database import AttestationsDB
@@ -215,9 +234,44 @@ def run_session(rundir: str, spec: dict) -> dict:
             log.ev(e="O", db="wallet")
         return wallet
 
-    for op in session["ops"]:
+    def do(op: list) -> None:
+        nonlocal remote
         kind = op[0]
-        if kind == "open":
+        if kind == "with":
+            # ("with", "identity"|"wallet", "ok"|"ignore"|"error", [ops]): the application batches through the
+            # context manager of Database.  ok: the block is left normally; ignore: it ends with ``raise
+            # IgnoreCommits()`` (documented way to skip the commit); error: an application error is raised inside
+            # the block and caught by the caller.  Nested blocks are only used with "ok" inside "ok".
+            from ipv8.database import IgnoreCommits
+            _, dbname, mode, inner = op
+            if dbname == "identity":
+                need_identity()
+                db = manager.database
+            else:
+                db = need_wallet()
+            assert mode == "ok" or batch.depth[dbname] == 0
+            batch.depth[dbname] += 1
+            left_normally = False
+            try:
+                with db:
+                    for o in inner:
+                        do(o)
+                    if mode == "ignore":
+                        raise IgnoreCommits
+                    if mode == "error":
+                        msg = "application error inside the batch"
+                        raise ValueError(msg)
+                left_normally = mode == "ok"
+            except ValueError:
+                if mode != "error":
+                    raise
+            finally:
+                batch.depth[dbname] -= 1
+            if batch.depth[dbname] == 0:
+                if left_normally and batch.deferred[dbname]:
+                    log.ev(e="A", i=batch.deferred[dbname])
+                batch.deferred[dbname] = []
+        elif kind == "open":
             need_identity()
             need_wallet()
         elif kind == "cred":
@@ -289,13 +343,17 @@ def run_session(rundir: str, spec: dict) -> dict:
             for name in names:
                 row = [hashlib.sha1(name.encode()).digest(), det_bytes("blob:" + name, size),  # noqa: S324
                        det_bytes("key:" + name, 96)]
-                log.ev(e="B", t="attestations", row=[hx(c) for c in [*row, ID_FORMAT.encode()]])
+                batch.count += 1
+                log.ev(e="B", i=batch.count, t="attestations", row=[hx(c) for c in [*row, ID_FORMAT.encode()]])
                 con.execute("INSERT INTO attestations (hash, blob, key) VALUES(?,?,?)", row)
                 con.commit()
-                log.ev(e="A")
+                log.ev(e="A", i=[batch.count])
             con.close()
         else:
             raise ValueError(op)
+
+    for op in session["ops"]:
+        do(op)
 
     end = session.get("end", "close")
     if end == "close":
